@@ -6,6 +6,8 @@ import (
 	"go/types"
 
 	"golang.org/x/tools/go/ssa"
+
+	"vsym/sym"
 )
 
 type fnInfo struct {
@@ -461,12 +463,24 @@ func (w *Worker) visitInstr(fr *frame, instr ssa.Instruction) continuation {
 			// exceed it is a violation, with a model for the offending input
 			ct := fr.get(instr.Cap).(T)
 			over := w.tb.Ugt(ct, w.tb.Const(ct.W, uint64(w.allocLimit)))
-			// ask first for an input whose request is large enough for the native
-			// allocation meter to confirm, then for any request over the limit
-			big := w.tb.Ugt(ct, w.tb.Const(ct.W, uint64(w.allocLimit)+65536))
-			if !over.IsFalse() && (over.IsTrue() || (!big.IsFalse() && !big.IsTrue() && w.branch(big)) || w.branch(over)) {
+			if !over.IsFalse() && (over.IsTrue() || w.branch(over)) {
 				if w.live() {
-					if vec := w.modelVectorChecked(); vec != nil {
+					// prefer an input whose request is large enough for the native
+					// allocation meter to confirm it; any request over the limit otherwise
+					var vec []VecEntry
+					big := w.tb.Ugt(ct, w.tb.Const(ct.W, uint64(w.allocLimit)+65536))
+					if !big.IsFalse() {
+						w.solver.Push()
+						w.solver.Assert(big)
+						if w.solver.Check() == sym.Sat {
+							vec = w.modelVector()
+						}
+						w.solver.PopTo(w.solver.Level() - 1)
+					}
+					if vec == nil {
+						vec = w.modelVectorChecked()
+					}
+					if vec != nil {
 						w.recordViolation("assert", "allocation out of proportion to the input", instr.Pos(), vec, "")
 					}
 				}
